@@ -28,7 +28,7 @@ ASSUMPTIONS = ['the oracle is a freshly constructed real monitor fed only the po
 REAL = common.REAL_ALL
 STUBS = common.STUBS_ALL
 PROBES = ['reset_before_first_update', 'double_reset', 'second_reset_after_more_updates', 'with_subspecs', 'pastified', 'dense_time', 'counter_nonzero_before_reset',
-          'reset_matters', 'poisoned_update_did_not_raise', 'only_failed_updates_before_reset']
+          'reset_matters', 'poisoned_update_did_not_raise', 'only_failed_updates_before_reset', 'reset_before_pastify']
 INTERLEAVING_MEASURE = 'distinct (time domain, reset position, pre-history length, double-reset) tuples'
 
 
@@ -83,7 +83,7 @@ def gen(rng, tier):
     # a poisoned update in the pre-history: one sensor delivers None, update() raises half-way, the application catches the
     # exception (and later resets the monitor)
     poison = {'at': rng.choice([0, 0, rng.randrange(m)]), 'var': rng.choice(sg.vars_of(ast))} if m and rng.random() < 0.3 else None
-    return {'poison': poison, 'dense': dense, 'cls': cls, 'vars': vars_, 'ast': ast, 'modular': modular, 'pastify': pastify, 'pre': pre,
+    return {'early': rng.random() < 0.4, 'poison': poison, 'dense': dense, 'cls': cls, 'vars': vars_, 'ast': ast, 'modular': modular, 'pastify': pastify, 'pre': pre,
             'post': post, 'double_at': rng.randint(0, m), 'text': None, 'spell_seed': rng.randrange(1 << 30), 'mid_len': mid_len}
 
 
@@ -203,12 +203,19 @@ def run(sc):
     if mid:
         # episodes: pre[:p], reset, mid (= a prefix of the post inputs), reset, post
         positions += [(p, 1, True) for p in sorted(set([0, m, m // 2]))]
+    if sc.get('early'):
+        # reset() right after parse(), BEFORE the remaining preparation (pastify) - "before the first update" in its earliest form
+        positions.append((0, 1, 'early'))
     matters = False
     for p, times, use_mid in positions:
         r.interleavings.add('%s|p=%d|m=%d|x%d|mid=%s' % ('ct' if dense else 'dt', p, m, times, len(mid) if use_mid else 0))
         r.faults['reset'] += times
         try:
-            mon = M.build(desc)
+            early = use_mid == 'early'
+            if early:
+                use_mid = False
+                r.probes['reset_before_pastify'] += 1
+            mon = M.build(dict(desc, prior={'early_reset': True}) if early else desc)
             feed_pre(mon, sc, pre[:p], r)
             before = mon.sampling_violation_counter
             d0 = M.state_digest(mon)
@@ -293,6 +300,10 @@ def shrinks(sc):
     if sc.get('poison'):
         c = copy.deepcopy(sc)
         c['poison'] = None
+        yield c
+    if sc.get('early'):
+        c = copy.deepcopy(sc)
+        c['early'] = False
         yield c
     if sc.get('mid_len'):
         for ml in (0, sc['mid_len'] - 1):
